@@ -151,10 +151,12 @@ def _long_worker(args):
     if family in LONG:
         g = LONG[family]
         w = GENS[family](rng, n)
-        if rng.random() < 0.3 and len(w) > 10:
-            # one corrupted token: same error report and recovery on every level
-            i = rng.randrange(len(w))
-            w[i] = rng.choice(g.term_names())
+        if rng.random() < 0.5 and len(w) > 10:
+            # 1-6 corrupted tokens: same error reports and recoveries on every level, and the goto cache
+            # keeps entries recorded before a recovery rewrote the parser list
+            for _ in range(rng.choice([1, 1, 2, 3, 6])):
+                i = rng.randrange(len(w))
+                w[i] = rng.choice(g.term_names())
         code = g.code_of()
         toks = [code[t] for t in w]
         for k, la in enumerate((0, 1, 2)):
